@@ -30,11 +30,37 @@ RULE = ("fields with DISTINCT integer tokens per cell/component and random masks
         "labels, no labels on a vector field, labelled scalar with mapping, labels removed afterwards with the mapping left behind "
         "(scalar: mapping silently dropped by the result; vector: every operation refuses), permuted mapping, > 3 components) x dtype "
         "float64/int64/complex128/float32, one in-region request per operation: nvdim, unit, vdims, vdim_mapping, subregions and bc of "
-        "the result mesh, ok/err and the kind of the result's array must EQUAL the model; oracle: mask boolean and arrays shaped like the mesh")
+        "the result mesh, ok/err and the kind of the result's array must EQUAL the model; oracle: mask boolean and arrays shaped like the mesh. "
+        "Streams 'near' / 'near-big' (both regimes; tags near:*, neardist:*, hair:*, tolerance_factor:*, cellscale:*, "
+        "cells-along-longest-axis:*, offset-in-cells:*): selection coordinates, range bounds and BOTH corners of extraction boxes at "
+        "every relative distance from a face - exact regime: 2^-k cell, k = 1..50 (0.5 .. 1e-15 cell), above and below every kind of "
+        "face (interior cell face, lower/upper region boundary, subregion face), chosen so that every intermediate float quantity is "
+        "exact -> implementation must EQUAL the model, no band; tol regime: 1/2.5/5 x 1e-1..1e-15 cell above/below faces as "
+        "np.linspace or k*cell give them, the neighbouring floats of both region boundaries, 1e-13 edge and 1e-6 cell beyond them "
+        "(judged strictly outside the 1e-9-cell band, which widens with |coordinate|/cell); outside-by-a-hair requests must be "
+        "REJECTED by sel (strict float comparison with the boundary, as the property says), for extraction boxes the answer is "
+        "demanded only outside 4 x the region's own allowance tolerance_factor*(shortest edge+|coordinate|) (inside it: model "
+        "comparison only). Meshes: dyadic cells 1,3,5 / 1,2,4 x 2^-40..2^30 resp. arbitrary cells x 1e-12..1e9, offsets 0 / "
+        "centred / tens / 1e3..4e6 cells from the origin, 1000-4096 cells along one axis (1-2-d; results of more than 700 cells are "
+        "value-checked on corner cells, outer layers and 300 random cells), Region tolerance_factor default, 0, 2^-5, 2^-10, 2^-20, "
+        "1e-2, 1e-3, 1e-6, 1e-9 (the model carries the factor), integer-typed corners, coordinates handed over as Python int / float, "
+        "numpy float64/float32/float16/int64/int32, ranges as tuple/list/ndarray; pad by tens to a thousand layers in every mode; "
+        "resampling to 48-128 cells along an axis (model) and to / from 1000-4096 cells (oracle on the real code only: the model's "
+        "lookup is quadratic). Malformed requests of every kind the signatures allow (26 kinds of sel value / call shape incl. "
+        "nan, +-inf, wrong lengths, strings, nested, complex, two axes at once; non-region items and regions of another dimension; "
+        "non-integer / wrong-length / non-pair pad widths, unknown mode; non-integer, nested, short, missing resample counts): all refused. "
+        "Operand histories (tag history:*; besides the generic aged re-runs): three of four resample cases and a quarter of the other "
+        "cases run on a field whose mesh was translated by its own edge lengths / scaled by 2 about the origin IN PLACE (through the "
+        "Mesh method or, without subregions, through mesh.region itself), read there (cells, vertices, to_xarray, lookups) and "
+        "brought back in place - only when every step is exact in binary64 and the geometry is verified bit-identical afterwards.")
 TRUSTED = ["harness/c07.py, harness/fieldio.py + driver JSON glue",
            "np.pad modes and xarray/pandas nearest lookup are modelled by contract (validated against the real calls on every run)"]
-ASSUMPTIONS = ["theorems are about exact rational arithmetic; in the tolerance regime a coordinate closer than 1e-9 cell to a "
-               "cell face may be attributed to either neighbouring cell",
+ASSUMPTIONS = ["theorems are about exact rational arithmetic; in the tolerance regime a coordinate closer than 1e-9 cell "
+               "(x max(1, (|coordinate|+|pmin|)/cell) for far offsets) to a cell face may be attributed to either neighbouring "
+               "cell; in the exact regime (dyadic geometry, coordinates at 2^-k cell from faces) no band is granted",
+               "an extraction box whose corner lies beyond the region boundary by less than 4 x tolerance_factor x (shortest "
+               "edge + |coordinate|) may be accepted or refused (the region's own notion of 'inside'); plane / range selection "
+               "is strict: any coordinate that compares outside [pmin, pmax] must be refused",
                "pad_width is a dict (distinct axes); np.pad kwargs other than mode are not used",
                "acceptance of Mesh.sel/Field.sel on meshes with subregions, and the subregion theorems, assume subregions made of "
                "whole cells with ordered corners (what the subregion setter enforces up to its tolerances)"]
@@ -45,8 +71,13 @@ UNPROVED = ["element type of the result: the rule resultKind (sel/getitem/pad pr
             "for given successful intermediate results (acceptance is proved separately: *_accepts, *_accepts_subs, pad_crop_accepts); "
             "sel_range_range excludes a sub-range whose upper bound lies exactly on the upper face of the first selection, where "
             "the code attributes the face to different cells before and after the first selection",
-            "object identity is not modelled: the result's vdim_mapping is the source's dict object in the real code"]
-BUDGET = {"quick": 85, "thorough": 900}
+            "object identity is not modelled: the result's vdim_mapping is the source's dict object in the real code",
+            "resampling from or to thousands of cells along an axis, requests with nan/inf, non-region items, non-integer pad widths "
+            "and resample counts are judged by the oracle on the real code only (tag oracle-only-op): the driver protocol has no "
+            "encoding for them / the model's nearest-coordinate lookup is quadratic in the axis length",
+            "OPEN, generated only with VERIF_C07_F4INT=1 (proposed finding D117): on integer-typed corners a selection coordinate of "
+            "type numpy.float32/float16 is truncated to an integer before the cell lookup"]
+BUDGET = {"quick": 95, "thorough": 900}
 
 NAMES = fieldio.NAMES
 MODES = ["constant", "edge", "wrap", "symmetric", "reflect"]
@@ -476,6 +507,8 @@ def gen_near_mesh(rng, big=False):
     pmax = [(p + k) * c for p, k, c in zip(off, n, cell)]
     assert fits(*pmin, *pmax)
     spec = dict(p1=[float(x) for x in pmin], p2=[float(x) for x in pmax], n=n, dims=None, bc="")
+    if all(x.denominator == 1 and abs(x) < 2 ** 53 for x in pmin + pmax) and rng.random() < 0.4:  # integer-typed corner arrays
+        spec["p1"], spec["p2"] = [int(x) for x in pmin], [int(x) for x in pmax]
     if rng.random() < 0.3:
         spec["dims"] = rng.sample(NAMES, ndim)
     if rng.random() < 0.2:
@@ -572,7 +605,7 @@ def sel_ops_near_exact(rng, spec, subs, tier, big=False):
     axes = list(range(len(dims)))
     if big:
         axes = [max(axes, key=lambda a: spec["n"][a])]
-    npts = 7 if big else (8 if tier == "quick" else 16)
+    npts = 6 if big else (6 if tier == "quick" else 16)
     for ax in axes:
         d = dims[ax]
         pts = [near_exact(rng, spec, subs, ax, where=w, side=sd) for w, sd in
@@ -696,8 +729,12 @@ def resample_ops_large(rng, spec, big):
         while int(np.prod(m)) > 4200:
             b = max((b for b in range(ndim) if b != a), key=lambda b: m[b])
             m[b] = 1
-        if max(n) <= 8:
-            ops.append(dict(op="resample", n=m, tag="rstolarge", xt=["resample:to-thousands"]))
+        # the model's lookup is quadratic in the number of target cells along an axis: model-checked up to 256 target
+        # cells along one axis, thousands by the oracle on the real code alone
+        ops.append(dict(op="resample", n=m, nomodel=True, tag="rstolarge", xt=["resample:to-thousands"]))
+        m2 = list(m)
+        m2[a] = rng.choice([48, 64, 100, 128])
+        ops.append(dict(op="resample", n=m2, tag="rstomany", xt=["resample:to-hundreds"]))
     return ops
 
 
@@ -833,10 +870,34 @@ def getitem_ops_near_tol(rng, spec, subs, tier, big=False):
     return ops
 
 
+def f4int_cases(rng, tier):
+    """only with VERIF_C07_F4INT=1 (open finding, see known()): integer-typed corners, cells 1, 1/2, 1/4, selection
+    coordinates inside cells handed over as numpy.float32 / float16"""
+    for _ in range(4 if tier == "quick" else 20):
+        ndim = rng.choice([1, 2, 3])
+        edge = [rng.randint(1, 4) for _ in range(ndim)]
+        mult = [rng.choice([1, 2, 4]) for _ in range(ndim)]
+        p1 = [rng.randint(-5, 5) for _ in range(ndim)]
+        spec = dict(p1=p1, p2=[a + e for a, e in zip(p1, edge)], n=[e * m for e, m in zip(edge, mult)], dims=None, bc="")
+        dims = dims_of(spec)
+        ops = []
+        for ax in range(ndim):
+            for _ in range(4):
+                t = rng.choice(["f4", "f2"])
+                ops.append(dict(op="sel", dim=dims[ax], arg={"point": num(interior_exact(rng, spec, ax)), "as": t}, tag="ptnarrow-" + t,
+                                xt=["narrow-float-on-int-corners"]))
+                ops.append(dict(op="sel", dim=dims[ax], arg={"range": [num(interior_exact(rng, spec, ax)), num(interior_exact(rng, spec, ax))], "as": t},
+                                tag="rgnarrow-" + t, xt=["narrow-float-on-int-corners"]))
+        yield dict(regime="exact", fam="sel", stream="narrow-float", mesh=spec, subs=[], nvdim=rng.choice([1, 2]), density=0.8,
+                   sub=rng.getrandbits(32), ops=ops)
+
+
 def near_cases(rng, tier):
     quick = tier == "quick"
-    plan = [("exact", False)] * (9 if quick else 70) + [("exact", True)] * (4 if quick else 20) + \
-           [("tol", False)] * (9 if quick else 70) + [("tol", True)] * (4 if quick else 20)
+    if FLAG_F4_INT:
+        yield from f4int_cases(rng, tier)
+    plan = [("exact", False)] * (7 if quick else 70) + [("exact", True)] * (3 if quick else 20) + \
+           [("tol", False)] * (8 if quick else 70) + [("tol", True)] * (3 if quick else 20)
     for regime, big in plan:
         exact = regime == "exact"
         spec = (gen_near_mesh if exact else gen_tol_mesh_wide)(rng, big)
@@ -858,7 +919,15 @@ def near_cases(rng, tier):
                 continue
             yield dict(regime=regime, fam=fam, stream="near-big" if big else "near", mesh=spec, subs=subs,
                        nvdim=rng.choice([1, 1, 2]) if big else rng.choice([1, 2, 3]),
-                       density=rng.choice([1.0, 0.7]), sub=rng.getrandbits(32), ops=ops)
+                       density=rng.choice([1.0, 0.7]), sub=rng.getrandbits(32), ops=ops, hist=pick_hist(rng, fam, rng.randrange(4)))
+
+
+def pick_hist(rng, fam, k):
+    """history of the operand: resampling (the operation that reads cached coordinate tables) mostly on fields whose mesh
+    made an in-place detour, the other families on a quarter of the cases"""
+    if fam == "resample":
+        return HISTS[k % 4] if k % 4 != 3 or rng.random() < 0.5 else None
+    return rng.choice(HISTS) if rng.random() < 0.25 else None
 
 
 def cases(rng, tier):
@@ -878,7 +947,7 @@ def cases(rng, tier):
             else:
                 ops = resample_ops(rng, spec, tier)
             yield dict(regime="exact", fam=fam, mesh=spec, subs=subs, nvdim=rng.choice([1, 1, 2, 3]),
-                       density=rng.choice([1.0, 0.8, 0.5]), sub=rng.getrandbits(32), ops=ops)
+                       density=rng.choice([1.0, 0.8, 0.5]), sub=rng.getrandbits(32), ops=ops, hist=pick_hist(rng, fam, k))
     yield from meta_cases(rng, tier)
     yield from near_cases(rng, tier)
     for k in range(ntol):
@@ -894,7 +963,7 @@ def cases(rng, tier):
             else:
                 ops = resample_ops(rng, spec, tier)[:4]
             yield dict(regime="tol", fam=fam, mesh=spec, subs=subs, nvdim=rng.choice([1, 2, 3]),
-                       density=rng.choice([1.0, 0.7]), sub=rng.getrandbits(32), ops=ops)
+                       density=rng.choice([1.0, 0.7]), sub=rng.getrandbits(32), ops=ops, hist=pick_hist(rng, fam, k))
 
 
 # ---- metadata family: fields in every label / mapping / element-type state, one in-region request per operation
@@ -1095,11 +1164,53 @@ def pad_rule_index(mode, n, lo, j):
     raise ValueError(mode)
 
 
+HISTS = ["region-translate", "region-scale", "mesh-translate", "mesh-scale"]
+
+
+def apply_history(mesh, f, kind):
+    """the field's mesh goes somewhere else IN PLACE (by its own edge lengths / scaled by 2 about the origin; through the
+    Mesh method or, on meshes without subregions, through the mesh's Region object), everything derived from the geometry
+    is read there, and it comes back in place. Only taken when every step is exact in binary64 and verified to be
+    bit-identical afterwards (helpers of harness/aging.py): the field is then the same field with another history, and
+    every demand of the property applies unchanged. Returns the distribution tag."""
+    from . import aging
+    via_region = kind.startswith("region") and not mesh.subregions
+    target = mesh.region if via_region else mesh
+    snap = aging._snap_mesh(mesh)
+    if kind.endswith("translate"):
+        v = mesh.region.edges.copy()
+        if not aging._can_translate(mesh, v):
+            return "history:none(not-exact)"
+        go, back = (lambda: target.translate(v, inplace=True)), (lambda: target.translate(-v, inplace=True))
+    else:
+        if not aging._can_scale(mesh):
+            return "history:none(not-exact)"
+        zero = tuple(0.0 for _ in range(mesh.region.ndim))
+        go, back = (lambda: target.scale(2.0, reference_point=zero, inplace=True)), \
+                   (lambda: target.scale(0.5, reference_point=zero, inplace=True))
+    go()
+    try:
+        for fn in (lambda: mesh.cells, lambda: mesh.vertices, lambda: mesh.cell, lambda: mesh.dV, lambda: len(mesh),
+                   lambda: mesh.region.edges, lambda: mesh.region.center, lambda: f.to_xarray(), lambda: f(mesh.region.center),
+                   lambda: mesh.point2index(mesh.region.center), lambda: mesh.index2point((0,) * mesh.region.ndim),
+                   lambda: hash(mesh.region) if mesh.region.__hash__ else None, lambda: repr(mesh)):
+            aging._quiet(fn)
+    finally:
+        back()
+    if not aging._mesh_unchanged(mesh, snap):
+        aging._restore_mesh(mesh, snap)
+        return "history:restored-by-constructor"
+    return "history:" + ("region-" if via_region else "mesh-") + kind.split("-")[1] + "-in-place-and-back"
+
+
 class Ctx:
     def __init__(self, case):
         self.case = case
         self.exact = case["regime"] == "exact"
         self.mesh, self.f = build(case)
+        self.hist_tag = "history:fresh"
+        if case.get("hist"):
+            self.hist_tag = apply_history(self.mesh, self.f, case["hist"])
         m = self.mesh
         self.ndim = m.region.ndim
         self.dims = list(m.region.dims)
@@ -1449,6 +1560,8 @@ def run_r2s(ctx, op, r, fail):
             d = abs(q - round(q))
             if (d != 0 if ctx.exact else d > Fraction(1, 10**9)) or not (-Fraction(1, 10**6) <= q <= ctx.n[a] + Fraction(1, 10**6)):
                 al = False
+        if round((FR(reg.pmax[a]) - ctx.lo[a]) / ctx.c[a]) <= round((FR(reg.pmin[a]) - ctx.lo[a]) / ctx.c[a]):
+            al = False  # both corners at the same face: not a box of whole cells
     r["aligned"] = al
     if not al:
         return
@@ -1618,6 +1731,11 @@ def run_impl(case):
         obs["src_kind"] = kind_of(f.array)
     obs["tags"] += [f"ndim:{ctx.ndim}", f"nvdim:{f.nvdim}", f"subs:{len(case.get('subs', []))}",
                     "corners:" + ("int" if f.mesh.region.pmin.dtype.kind == "i" else "float")]
+    tf = case["mesh"].get("tol")
+    obs["tags"] += [ctx.hist_tag, "tolerance_factor:" + ("default" if tf is None else repr(tf)),
+                    "cellscale:1e%+03d" % int(math.floor(math.log10(float(min(ctx.c))))),
+                    "cells-along-longest-axis:" + ("thousands" if max(ctx.n) >= 1000 else "tens" if max(ctx.n) >= 10 else "units"),
+                    "offset-in-cells:" + ("far(>=1e3)" if max(abs(l) / c for l, c in zip(ctx.lo, ctx.c)) >= 1000 else "near")]
     nontriv = False
     for k, op in enumerate(case["ops"]):
         r = {}
@@ -1936,7 +2054,14 @@ def nontrivial(case, obs):
 
 def known(case, text):
     # D71 (box touching the upper boundary) and D72 (range next to a subregion face) are fixed in /repo:
-    # corpus cases 06/07 are regression cases now; C07 has no open finding
+    # corpus cases 06/07 are regression cases now.
+    # D117 (proposed): on a mesh with INTEGER-typed corners a selection coordinate handed over as numpy.float32 /
+    # float16 is truncated to an integer (`pmin.astype(max(pmin.dtype, type(value)))` stays int64), so the cell
+    # containing int(x) is selected instead of the cell containing x. Generated only with VERIF_C07_F4INT=1.
+    ms = case.get("mesh", {})
+    if all(isinstance(v, int) for v in list(ms.get("p1", [])) + list(ms.get("p2", []))) and \
+            any(isinstance(op.get("arg"), dict) and op["arg"].get("as") in ("f4", "f2") for op in case.get("ops", [])):
+        return "D117"
     return None
 
 
